@@ -161,6 +161,21 @@ theorem perm_invariant {x y : List Rat} (h : x.Perm y) (v : Rat) :
     cntGE x v = cntGE y v ∧ cntLE x v = cntLE y v ∧ x.length = y.length :=
   ⟨h.countP_eq _, h.countP_eq _, h.length_eq⟩
 
+/-- **integer data**: for a sample and a query that are integers — of any size, e.g. int64 / uint64 counts beyond 2^53
+    that differ by less than the float64 spacing — the probabilities are the counts over the integers themselves
+    (the embedding into the rationals is exact and order-preserving; nothing is rounded) -/
+theorem int_data_exact (xs : List Int) (v : Int) (hx : xs ≠ []) :
+    geEcdf (xs.map (fun (z : Int) => (z : Rat))) (v : Rat) = some (xs.countP (fun z => decide (v ≤ z)), xs.length) ∧
+    leEcdf (xs.map (fun (z : Int) => (z : Rat))) (v : Rat) = some (xs.countP (fun z => decide (z ≤ v)), xs.length) := by
+  have hne : xs.map (fun (z : Int) => (z : Rat)) ≠ [] := by simpa using hx
+  rw [ge_ecdf_eq _ _ hne, le_ecdf_eq _ _ hne]
+  simp [cntGE, cntLE, List.countP_map, Function.comp_def, Rat.intCast_le_intCast]
+
+-- non-vacuity: three neighbouring integers above 2^53 (they round to two float64 values), query on the middle one
+example : geEcdf [9007199254740992, 9007199254740993, 9007199254740994] 9007199254740993 = some (2, 3) ∧
+    leEcdf [9007199254740992, 9007199254740993, 9007199254740994] 9007199254740993 = some (2, 3) := by
+  rw [ge_ecdf_eq _ _ (by simp), le_ecdf_eq _ _ (by simp)]; decide +kernel
+
 -- non-vacuity: a sample with ties, query on a tied value
 example : geEcdf [3, 1, 3, 2] 3 = some (2, 4) ∧ leEcdf [3, 1, 3, 2] 3 = some (4, 4) := by
   rw [ge_ecdf_eq _ _ (by simp), le_ecdf_eq _ _ (by simp)]; decide +kernel
